@@ -3,7 +3,8 @@ import Qv.Proofs.Refine
 C01 / C08, model side.  Statements about the sequential device model
 `Qv.Model.Dev` (helper lemmas live in `Qv/Proofs/Refine.lean`):
 
-* T1  `allocateClusters_sound`, `allocateClusters_err_frame`,
+* T1  `allocateClusters_sound` (no reftable growth), `allocateClusters_sound_general`,
+      `allocateClusters_frame`, `allocateClusters_err_frame`,
       `allocateClusters_in_reftable`: what `allocate_clusters` guarantees about the
       final state (only free clusters are handed out; frame; location);
 * T2  `write_inplace_read_back`, T3 `write_inplace_frame`: read-your-writes and
@@ -35,9 +36,19 @@ open Qv.Props.C15 (Geom)
     refblock before, `idx * rbEntries * cs` after): that cluster ends with
     refcount 1.  L1, L2 tables, data plane, new-cluster list, backing, compressed
     store and `info` are untouched; the reftable changes only at entries that had
-    no refblock.  Needs no hypothesis on the geometry or on `count`. -/
+    no refblock.  Needs no hypothesis on the geometry or on `count`.
+
+    CHANGED (reftable growth): hypothesis `hng` added — the call did not grow the
+    refcount table.  (`rtLen` never decreases and every growth raises it, so
+    `d'.rtLen = d.rtLen` says exactly that; it holds whenever the allocation is
+    satisfied inside the present table, e.g. `allocateClusters_one_free_hint`.)
+    When the table is relocated the statement is false as it stands: the refcounts of
+    the new table and its refblock are written, the old table's are decremented, and
+    `rtLen` changes.  What holds for every successful call is
+    `allocateClusters_sound_general`; the accounting through the relocation is C12. -/
 theorem allocateClusters_sound (count : Nat) (d d' : Dev) (host n : Nat)
-    (h : allocateClusters count d = (d', .ok (some (host, n)))) :
+    (h : allocateClusters count d = (d', .ok (some (host, n))))
+    (hng : d'.rtLen = d.rtLen) :
     1 ≤ n ∧ n ≤ count ∧ host % d.info.clusterSize = 0 ∧
     (∀ c, host / d.info.clusterSize ≤ c → c < host / d.info.clusterSize + n →
       d.rc.get c = 0 ∧ d'.rc.get c = 1) ∧
@@ -54,7 +65,7 @@ theorem allocateClusters_sound (count : Nat) (d d' : Dev) (host n : Nat)
     (∀ idx, d'.rt.get idx = d.rt.get idx ∨
       (idx < d.rtLen ∧ RT.isZero (d.rt.get idx) = true ∧
         d'.rt.get idx = BitVec.ofNat 64 (idx * d.info.rbEntries * d.info.clusterSize))) := by
-  have post := allocateClusters_post count d
+  have post := allocateClusters_post count d (by rw [h]; exact hng)
   rw [h] at post
   obtain ⟨⟨fr, rt⟩, a, b, c, e, f⟩ := post
   refine ⟨a, b, c, e, ?_, ?_, ?_, rt⟩
@@ -69,11 +80,55 @@ theorem allocateClusters_sound (count : Nat) (d d' : Dev) (host n : Nat)
     · exact e
     · rw [c.2.1] at hz; cases hz
 
-/-- The same frame facts hold on every other outcome (`Err`, panic, and the
-    unreachable `Ok(None)`): the state survives errors in `M`, and whatever the
-    allocator did before failing stays inside `rt`, `rc`, `hint`, `needFlush`. -/
-theorem allocateClusters_err_frame (count : Nat) (d d' : Dev) (r : Outcome (Option (Nat × Nat)))
+/-- NEW: what every successful `allocate_clusters` guarantees, whether or not the
+    reftable grew: the run is non-empty, at most `count` long, cluster aligned, its
+    clusters end with refcount 1; and the frame of `allocateClusters_frame`. -/
+theorem allocateClusters_sound_general (count : Nat) (d d' : Dev) (host n : Nat)
+    (h : allocateClusters count d = (d', .ok (some (host, n)))) :
+    1 ≤ n ∧ n ≤ count ∧ host % d.info.clusterSize = 0 ∧
+    (∀ c, host / d.info.clusterSize ≤ c → c < host / d.info.clusterSize + n → d'.rc.get c = 1) := by
+  have := allocateClusters_runOk count d
+  rw [h] at this
+  exact this host n rfl
+
+/-- The frame facts hold on every outcome (`Ok`, `Err`, panic, and the unreachable
+    `Ok(None)`): the state survives errors in `M`, and whatever the allocator did
+    before failing stays inside `rt`, `rc`, `hint`, `needFlush` and — CHANGED (reftable
+    growth) — `rtLen`, `hdrRtOff`, `hdrRtClusters`.
+    CHANGED: was `allocateClusters_err_frame` with `d'.rtLen = d.rtLen` and the reftable
+    statements for every index.  Now `rtLen` is non-decreasing, and the statements about
+    reftable entries are for the entries of the original table (`idx < d.rtLen`): the
+    relocation writes entry `d.rtLen`, and the grown table has further entries. -/
+theorem allocateClusters_frame (count : Nat) (d d' : Dev) (r : Outcome (Option (Nat × Nat)))
     (h : allocateClusters count d = (d', r)) :
+    (d'.l1 = d.l1 ∧ d'.l2 = d.l2 ∧ d'.data = d.data ∧ d'.newData = d.newData ∧
+      d'.back = d.back ∧ d'.comp = d.comp ∧ d'.info = d.info ∧
+      d'.l1Len = d.l1Len ∧ d'.l1HdrEntries = d.l1HdrEntries ∧ d.rtLen ≤ d'.rtLen ∧
+      d'.version = d.version ∧ d'.hdrL1Off = d.hdrL1Off ∧ d'.hdrL1Entries = d.hdrL1Entries) ∧
+    (∀ idx, idx < d.rtLen → RT.isZero (d.rt.get idx) = false → d'.rt.get idx = d.rt.get idx) ∧
+    (∀ idx, idx < d.rtLen → d'.rt.get idx = d.rt.get idx ∨
+      (RT.isZero (d.rt.get idx) = true ∧
+        d'.rt.get idx = BitVec.ofNat 64 (idx * d.info.rbEntries * d.info.clusterSize))) := by
+  have g := allocateClusters_growFrame count d
+  rw [h] at g
+  obtain ⟨fr, len, rt⟩ := g
+  dsimp only at fr len rt
+  refine ⟨?_, ?_, ?_⟩
+  · obtain ⟨_, _, _, _, _, _, _, rfl⟩ := fr
+    exact ⟨rfl, rfl, rfl, rfl, rfl, rfl, rfl, rfl, rfl, len, rfl, rfl, rfl⟩
+  · intro idx hidx hz
+    rcases rt idx hidx with e | c
+    · exact e
+    · rw [c.2.1] at hz; cases hz
+  · intro idx hidx
+    rcases rt idx hidx with e | c
+    · exact Or.inl e
+    · exact Or.inr ⟨c.2.1, c.2.2⟩
+
+/-- the statement as it was before reftable growth, for calls that did not grow the
+    table (any outcome) -/
+theorem allocateClusters_err_frame (count : Nat) (d d' : Dev) (r : Outcome (Option (Nat × Nat)))
+    (h : allocateClusters count d = (d', r)) (hng : d'.rtLen = d.rtLen) :
     (d'.l1 = d.l1 ∧ d'.l2 = d.l2 ∧ d'.data = d.data ∧ d'.newData = d.newData ∧
       d'.back = d.back ∧ d'.comp = d.comp ∧ d'.info = d.info ∧
       d'.l1Len = d.l1Len ∧ d'.l1HdrEntries = d.l1HdrEntries ∧ d'.rtLen = d.rtLen ∧
@@ -82,7 +137,7 @@ theorem allocateClusters_err_frame (count : Nat) (d d' : Dev) (r : Outcome (Opti
     (∀ idx, d'.rt.get idx = d.rt.get idx ∨
       (idx < d.rtLen ∧ RT.isZero (d.rt.get idx) = true ∧
         d'.rt.get idx = BitVec.ofNat 64 (idx * d.info.rbEntries * d.info.clusterSize))) := by
-  have post := allocateClusters_post count d
+  have post := allocateClusters_post count d (by rw [h]; exact hng)
   rw [h] at post
   have g : RtGrow d d' := by
     rcases r with (_ | ⟨o, n⟩) | e | p
@@ -101,12 +156,14 @@ theorem allocateClusters_err_frame (count : Nat) (d d' : Dev) (r : Outcome (Opti
 
 /-- Location of the run: under the geometry equations and `rb_slice_bits ≤
     cluster_bits` the run starts inside the area covered by the reftable (the scan
-    never leaves the refblock range of an in-range reftable index). -/
+    never leaves the refblock range of an in-range reftable index).
+    CHANGED (reftable growth): "the reftable" is the one after the call (`d'.rtLen`,
+    was `d.rtLen`; the same when the call did not grow it). -/
 theorem allocateClusters_in_reftable (count : Nat) (d d' : Dev) (g : Geom d.info)
     (hsl : d.info.rbSliceBits ≤ d.info.cb) (host n : Nat)
     (h : allocateClusters count d = (d', .ok (some (host, n)))) :
-    Host.rtIndex d.info host < d.rtLen ∧
-    host < d.rtLen * d.info.rbEntries * d.info.clusterSize :=
+    Host.rtIndex d.info host < d'.rtLen ∧
+    host < d'.rtLen * d.info.rbEntries * d.info.clusterSize :=
   allocateClusters_range count d d' g hsl host n h
 
 /-- `Ok(None)` is never returned (restated from C08 for `allocateClusters`).  Note
@@ -211,7 +268,11 @@ theorem write_inplace_frame (d : Dev) (off len h : Nat) (toks : List Nat)
     Hypotheses beyond the task statement: `9 ≤ cluster_bits` and `h < 2^56` (so that
     the L2 entry can hold `h`), cluster 0 (the header) is in use (so that `h ≠ 0`),
     `block bits ≤ cluster_bits` and the guest cluster lies inside the virtual disk
-    (so that the whole-cluster read is accepted unclamped). -/
+    (so that the whole-cluster read is accepted unclamped).
+
+    CHANGED (reftable growth): hypothesis `hng` added (the allocation did not grow the
+    reftable), needed for "was free before" and for `h ≠ 0` from `hhdr`.  Without it:
+    `write_new_cluster_zeroes_rest_grow`. -/
 theorem write_new_cluster_zeroes_rest (d d1 : Dev) (off len h n : Nat) (toks : List Nat)
     (hc : writeCheck d.info off len = none) (hl : len ≠ 0)
     (hsingle : off / d.info.clusterSize = (off + len - 1) / d.info.clusterSize)
@@ -221,6 +282,7 @@ theorem write_new_cluster_zeroes_rest (d d1 : Dev) (off len h n : Nat) (toks : L
     (hcb : 9 ≤ d.info.cb) (hbs : d.info.bsb ≤ d.info.cb)
     (hhdr : d.rc.get 0 ≠ 0)
     (ha : allocateClusters 1 d = (d1, .ok (some (h, n))))
+    (hng : d1.rtLen = d.rtLen)
     (h56 : h < 2^56)
     (hv : off / d.info.clusterSize * d.info.clusterSize + d.info.clusterSize ≤ d.info.vsize) :
     ∃ d', writeAt off len toks d = (d', .ok ()) ∧
@@ -234,11 +296,11 @@ theorem write_new_cluster_zeroes_rest (d d1 : Dev) (off len h n : Nat) (toks : L
       L2.plainOffset (d'.mapping off) 0 = some h ∧
       d'.info = d.info := by
   obtain ⟨hw, h512, hpos, hi1, hdata, hdec⟩ :=
-    write_new_cluster d d1 off len h n toks hc hl hsingle hback hun hl1 hcb hhdr ha h56
-  obtain ⟨n1, _, hal, hrun, _⟩ := allocateClusters_sound 1 d d1 h n ha
+    write_new_cluster d d1 off len h n toks hc hl hsingle hback hun hl1 hcb hhdr ha hng h56
+  obtain ⟨n1, _, hal, hrun, _⟩ := allocateClusters_sound 1 d d1 h n ha hng
   obtain ⟨z1, z2⟩ := hrun (h / d.info.clusterSize) (Nat.le_refl _) (by omega)
   have hfr : AllocFrame d d1 := by
-    have post := allocateClusters_post 1 d
+    have post := allocateClusters_post 1 d (by rw [ha]; exact hng)
     rw [ha] at post
     exact post.frame
   have hl11 : d1.l1Entry off = d.l1Entry off := by
@@ -275,6 +337,7 @@ theorem write_new_cluster_zeroes_rest' (d d1 : Dev) (off len h n : Nat) (toks : 
     (hcb : 9 ≤ d.info.cb) (hbs : d.info.bsb ≤ d.info.cb)
     (hhdr : d.rc.get 0 ≠ 0)
     (ha : allocateClusters 1 d = (d1, .ok (some (h, n))))
+    (hng : d1.rtLen = d.rtLen)
     (hrt56 : d.rtLen * d.info.rbEntries * d.info.clusterSize ≤ 2^56)
     (hv : off / d.info.clusterSize * d.info.clusterSize + d.info.clusterSize ≤ d.info.vsize) :
     ∃ d', writeAt off len toks d = (d', .ok ()) ∧
@@ -287,8 +350,62 @@ theorem write_new_cluster_zeroes_rest' (d d1 : Dev) (off len h n : Nat) (toks : 
       h / d.info.clusterSize ∉ d'.newData ∧
       L2.plainOffset (d'.mapping off) 0 = some h ∧
       d'.info = d.info :=
-  write_new_cluster_zeroes_rest d d1 off len h n toks hc hl hsingle hback hun hl1 hcb hbs hhdr ha
-    (Nat.lt_of_lt_of_le (allocateClusters_in_reftable 1 d d1 g hsl h n ha).2 hrt56) hv
+  write_new_cluster_zeroes_rest d d1 off len h n toks hc hl hsingle hback hun hl1 hcb hbs hhdr ha hng
+    (Nat.lt_of_lt_of_le (hng ▸ (allocateClusters_in_reftable 1 d d1 g hsl h n ha).2) hrt56) hv
+
+/-- NEW: T5 for an allocation that may have grown the reftable.  `0 < h` is a
+    hypothesis (instead of "cluster 0 is in use"), and "the cluster was free before"
+    is not claimed: both need the accounting invariant once the relocation has rewritten
+    refcounts (C12).  Everything about the data plane and the mapping is as in T5. -/
+theorem write_new_cluster_zeroes_rest_grow (d d1 : Dev) (off len h n : Nat) (toks : List Nat)
+    (hc : writeCheck d.info off len = none) (hl : len ≠ 0)
+    (hsingle : off / d.info.clusterSize = (off + len - 1) / d.info.clusterSize)
+    (hback : d.info.hasBack = false)
+    (hun : (d.mapping off).source = .unallocated)
+    (hl1 : L1.isZero (d.l1Entry off) = false)
+    (hcb : 9 ≤ d.info.cb) (hbs : d.info.bsb ≤ d.info.cb)
+    (hpos : 0 < h)
+    (ha : allocateClusters 1 d = (d1, .ok (some (h, n))))
+    (h56 : h < 2^56)
+    (hv : off / d.info.clusterSize * d.info.clusterSize + d.info.clusterSize ≤ d.info.vsize) :
+    ∃ d', writeAt off len toks d = (d', .ok ()) ∧
+      readAt d' (off / d.info.clusterSize * d.info.clusterSize) d.info.clusterSize =
+        .ok (d.info.clusterSize, (List.range (d.info.clusterSize / 512)).map (fun k =>
+          if off % d.info.clusterSize / 512 ≤ k ∧ k < off % d.info.clusterSize / 512 + toks.length
+          then toks.getD (k - off % d.info.clusterSize / 512) 0 else 0)) ∧
+      d'.rc.get (h / d.info.clusterSize) = 1 ∧
+      h % d.info.clusterSize = 0 ∧
+      h / d.info.clusterSize ∉ d'.newData ∧
+      L2.plainOffset (d'.mapping off) 0 = some h ∧
+      d'.info = d.info := by
+  obtain ⟨hw, h512, hi1, hdata, hdec⟩ :=
+    write_new_cluster_grow d d1 off len h n toks hc hl hsingle hback hun hl1 hcb hpos ha h56
+  obtain ⟨n1, _, hal, hrun⟩ := allocateClusters_sound_general 1 d d1 h n ha
+  have z2 := hrun (h / d.info.clusterSize) (Nat.le_refl _) (by omega)
+  have hl11 : d1.l1Entry off = d.l1Entry off := by
+    obtain ⟨⟨e1, _⟩, _⟩ := allocateClusters_frame 1 d d1 _ ha
+    have e8 := (allocateClusters_frame 1 d d1 _ ha).1.2.2.2.2.2.2.2.1
+    unfold Dev.l1Entry
+    rw [e1, e8, hi1]
+  generalize hD : newMapped d1 ((h / d.info.clusterSize) :: d.newData) off h = D at hw
+  have hDi : D.info = d.info := by rw [← hD]; exact hi1
+  have hDe : D.l2Entry off = L2.mapClusterEntry h := by
+    rw [← hD]; exact newMapped_l2Entry _ _ _ _ (by rw [hl11]; exact hl1)
+  have hDn : D.newData = (h / d.info.clusterSize) :: d.newData := by rw [← hD]; rfl
+  have hDrc : D.rc = d1.rc := by rw [← hD]; rfl
+  refine ⟨zeroedWrite D off h toks, hw, ?_, ?_, hal, ?_, ?_, hDi⟩
+  · have := read_zeroedWrite D off h toks hDe (by rw [hDi]; exact hdec) h512
+      (by rw [hDi]; exact hv) (by rw [hDi]; exact hbs)
+    rw [hDi] at this
+    exact this
+  · show D.rc.get _ = 1
+    rw [hDrc]; exact z2
+  · show h / d.info.clusterSize ∉ D.newData.filter (· ≠ h / D.info.clusterSize)
+    rw [hDi]
+    simp
+  · show L2.plainOffset (L2.intoMapping D.info.cb D.info.hasBack _ (D.l2Entry off)) 0 = some h
+    rw [hDe, hDi, hdec]
+    rfl
 
 /-! ## T4. multi-cluster in-place overwrite -/
 
@@ -582,7 +699,8 @@ theorem devW_rc (k : Nat) : devW.rc.get k = if k < 7 then 1 else 0 := by
   · rw [if_neg (by omega), if_neg h]
 
 /-- the allocator hands out host cluster 7 -/
-theorem devW_alloc : ∃ d1, allocateClusters 1 devW = (d1, .ok (some (0x70000, 1))) :=
+theorem devW_alloc : ∃ d1, allocateClusters 1 devW = (d1, .ok (some (0x70000, 1))) ∧
+    d1.rtLen = devW.rtLen :=
   allocateClusters_one_free_hint devW Qv.Props.C08.geomEx (by decide)
     (by
       have : devW.rt.get (Host.rtIndex devW.info devW.hint) = 0x10000#64 := by
@@ -597,8 +715,8 @@ theorem devW_alloc : ∃ d1, allocateClusters 1 devW = (d1, .ok (some (0x70000, 
 example : ∃ d1, allocateClusters 1 devW = (d1, .ok (some (0x70000, 1))) ∧
     devW.rc.get 7 = 0 ∧ d1.rc.get 7 = 1 ∧ d1.rc.get 6 = 1 ∧ d1.rc.get 8 = 0 ∧
     d1.l1 = devW.l1 ∧ d1.l2 = devW.l2 ∧ d1.data = devW.data ∧ d1.rt.get 0 = devW.rt.get 0 := by
-  obtain ⟨d1, h⟩ := devW_alloc
-  obtain ⟨_, _, _, hrun, hother, hfr, hrt, _⟩ := allocateClusters_sound 1 devW d1 0x70000 1 h
+  obtain ⟨d1, h, hng⟩ := devW_alloc
+  obtain ⟨_, _, _, hrun, hother, hfr, hrt, _⟩ := allocateClusters_sound 1 devW d1 0x70000 1 h hng
   have hq : 0x70000 / devW.info.clusterSize = 7 := by decide
   rw [hq] at hrun hother
   obtain ⟨z1, z2⟩ := hrun 7 (by omega) (by omega)
@@ -636,13 +754,13 @@ example : ∃ d', writeAt 0x30200 512 [42] devW = (d', .ok ()) ∧
     readAt d' 0x30000 0x10000 =
       .ok (0x10000, (List.range 128).map (fun k => if 1 ≤ k ∧ k < 2 then [42].getD (k - 1) 0 else 0)) ∧
     devW.rc.get 7 = 0 ∧ d'.rc.get 7 = 1 := by
-  obtain ⟨d1, ha⟩ := devW_alloc
+  obtain ⟨d1, ha, hng⟩ := devW_alloc
   obtain ⟨d', hw, hr, z1, z2, _⟩ := write_new_cluster_zeroes_rest' devW d1 0x30200 512 0x70000 1 [42]
     Qv.Props.C08.geomEx (by decide)
     (by decide) (by decide) (by decide) rfl
     ((devW_mapping 0x30200).2.2 (by decide) (by decide))
     (by rw [devW_l1Entry _ (by decide)]; decide)
-    (by decide) (by decide) (by rw [devW_rc]; decide) ha (by decide) (by decide)
+    (by decide) (by decide) (by rw [devW_rc]; decide) ha hng (by decide) (by decide)
   exact ⟨d', hw, hr, z1, z2⟩
 
 theorem devW_plainRange : PlainRange devW 0x1FC00 2048 := by
